@@ -660,7 +660,7 @@ def alternative_hellinger(x, y):
 
 @numba.vectorize(fastmath=True)
 def correct_alternative_hellinger(d):
-    return np.sqrt(1.0 - pow(2.0, -d))
+    return np.sqrt(max(1.0 - pow(2.0, -d), 0.0))
 
 
 @numba.njit()
